@@ -9,7 +9,7 @@ PROPS["C16"] = dict(
          "frame-aligned distances when there is no horizon); instance A skips, twin B replays each skip as k single cycles; the "
          "independent model is compared with B after every op (flags, frame time+content, interrupt time, horizon safety). "
          "facade: 240-op histories (a fresh Teakra each) through Teakra::MMIOWrite/MMIORead (0x2BE/0x2C6/0x2CA/0x2C2/0x200/0x202), Teakra::Run and "
-         "SetAudioCallback while the core executes an idle loop (Skip path) or a nop loop (Tick path). distinct_nontrivial = "
+         "SetAudioCallback while the core executes an idle loop (Skip path) or a nop loop (Tick path). One short-period history in six starts with a 65 500-word stream (16-bit counts of the port just below their wrap); one history in five runs on ports without an audio callback; the callback is re-installed at random points; half of the long-period histories end with one Skip across 2^32 / 2^33 / 3*2^32 cycles checked against the statement's arithmetic. distinct_nontrivial = "
          "distinct (op, period class, queue-fill class 0/1/2/odd/even/15/16, enabled?, skip-distance class, frame/irq seen?) "
          "keys executed and compared",
     floors={
